@@ -1,6 +1,6 @@
 (* C05 — pinned statements only. *)
 From Coq Require Import List Bool Arith ZArith.
-From Verif Require Import Conc.Model Conc.Steps Conc.Proofs Conc.Ids Conc.Run Conc.Sound Conc.Sim Conc.SeqFacts.
+From Verif Require Import Conc.Model Conc.Steps Conc.Proofs Conc.Ids Conc.Run Conc.Sound Conc.Sim Conc.SeqFacts Conc.Cache gen.Gen_Cache.
 Import ListNotations.
 Open Scope Z_scope.
 
@@ -157,6 +157,59 @@ Theorem C05_lin_ok_sound :
 Proof. exact lin_ok_sound. Qed.
 Print Assumptions C05_lin_ok_sound.
 
+(* ------------------------------------------------------------------ C05.5 the read cache *)
+(* the order of the protocol steps as regenerated from storage.rs: reader = lookup, load the
+   generation, fetch, re-check, insert (tagged with the LOADED generation); every write path =
+   backend write, bump, evict; the lookup compares the entry's tag with the current generation *)
+Theorem C05_cache_protocol_order :
+  inner_get_order = good_reader /\ lookup_checks_generation = true /\
+  Forall (fun p => snd p = good_writer) write_orders /\ backend_mutation_sites = 3%nat.
+Proof. repeat split; try reflexivity. repeat constructor. Qed.
+Print Assumptions C05_cache_protocol_order.
+
+(* Any number of readers running the generated reader program and writers running any of the
+   generated write paths, any schedule: a read — served from the cache or from the backend —
+   returns a value that is not older than the newest write acknowledged before the read took
+   its first step ([a], see C05_cache_read_start) and not newer than the backend holds. Hence
+   after an acknowledged write no later read returns an older value, and a value served from
+   the cache was written no earlier than the last write acknowledged before the read began. *)
+Theorem C05_cache_coherent :
+  forall ths sched,
+    Forall (fun th => th = fresh_reader inner_get_order \/
+                      exists n w, In (n, w) write_orders /\ th = fresh_writer w) ths ->
+    let s := krun (kinit ths) sched in
+    forall i prog s0 v a r, nth_error (k_threads s) i = Some (Reader prog s0 v (Some a) (Some r)) ->
+      (a <= r <= k_store s)%nat.
+Proof.
+  intros ths sched H. apply cache_coherent.
+  destruct C05_cache_protocol_order as (E1 & _ & E2 & _). rewrite Forall_forall in *.
+  intros th Hin. destruct (H th Hin) as [->|(n & w & Hw & ->)].
+  - left. rewrite E1. reflexivity.
+  - right. rewrite (E2 _ Hw : w = good_writer). reflexivity.
+Qed.
+Print Assumptions C05_cache_coherent.
+
+Theorem C05_cache_read_start :
+  forall s i s' prog s0 v res,
+    nth_error (k_threads s) i = Some (Reader prog s0 v None res) -> kstep s i = Some s' ->
+    exists prog' s0' v' res', nth_error (k_threads s') i = Some (Reader prog' s0' v' (Some (k_acked s)) res').
+Proof. exact kstep_records_start. Qed.
+Print Assumptions C05_cache_read_start.
+
+(* the order "fetch, then load the generation" is wrong: a reader whose fetch was served before
+   a write but resumed after it caches the old value under the new generation, and a read that
+   begins after the write was acknowledged (level 1) is served value 0 *)
+Theorem C05_cache_fetch_before_load_refuted :
+  exists ths sched i prog s0 v a r,
+    Forall (fun th => th = fresh_reader [RLookup; RFetch; RLoadSeq; RInsert] \/ th = fresh_writer good_writer) ths /\
+    nth_error (k_threads (krun (kinit ths) sched)) i = Some (Reader prog s0 v (Some a) (Some r)) /\ (r < a)%nat.
+Proof.
+  exists [fresh_reader bad_reader; fresh_writer good_writer; fresh_reader bad_reader],
+         [0; 0; 1; 1; 1; 0; 0; 2]%nat, 2%nat, [], None, None, 1%nat, 0%nat.
+  split; [repeat (constructor; [first [left; reflexivity|right; reflexivity]|]); constructor|]. split; [vm_compute; reflexivity|auto].
+Qed.
+Print Assumptions C05_cache_fetch_before_load_refuted.
+
 (* ------------------------------------------------------------------ non-vacuity *)
 (* two updates of document 1 and a remove of it: after thread 0 took the lock, thread 1 is blocked *)
 Example C05_mutex_nonvacuous :
@@ -182,3 +235,12 @@ Example C05_admits_nonvacuous :
           EvReturn 0%nat (RDoc (5, 1)); EvApply 1%nat (LGet 1 (Some (0, 0))); EvApply 1%nat (LIntent 1); EvApply 1%nat (LDelete 1);
           EvReturn 1%nat (RDoc (10, 1))] [] = false.
 Proof. split; vm_compute; reflexivity. Qed.
+
+(* the generated protocol with a writer overlapping a reader: the read that starts after the
+   acknowledgement sees the new value *)
+Example C05_cache_nonvacuous :
+  let s := krun (kinit [fresh_reader inner_get_order; fresh_writer good_writer; fresh_reader inner_get_order])
+                [0; 0; 0; 1; 1; 1; 0; 0; 2; 2; 2; 2; 2]%nat in
+  nth_error (k_threads s) 0%nat = Some (Reader [] (Some 0%nat) (Some 0%nat) (Some 0%nat) (Some 0%nat)) /\
+  nth_error (k_threads s) 2%nat = Some (Reader [] (Some 1%nat) (Some 1%nat) (Some 1%nat) (Some 1%nat)).
+Proof. vm_compute. auto. Qed.
